@@ -588,7 +588,12 @@ pub fn one_history(rng: &mut Rng, sink: &mut Sink, n_ops: usize, allow_cons_off:
         let mut kids = vec![];
         for i in 0..(3 + rng.below(4)) {
             if i % 2 == 0 {
-                kids.push(GTree::leaf(GValue::Text(small_text(rng).replace("", "").chars().chain("t".chars()).collect())));
+                // sometimes an EMPTY text node (new_text("") is legal): the merge helpers must cope
+                if rng.chance(1, 4) {
+                    kids.push(GTree::leaf(GValue::Text(String::new())));
+                } else {
+                    kids.push(GTree::leaf(GValue::Text(small_text(rng).chars().chain("t".chars()).collect())));
+                }
             } else if rng.chance(2, 3) {
                 kids.push(GTree::new(GValue::Element(*rng.pick(&[2usize, 3])), vec![]));
             } else {
@@ -604,7 +609,7 @@ pub fn one_history(rng: &mut Rng, sink: &mut Sink, n_ops: usize, allow_cons_off:
             break;
         }
         let mut op = pick_op(rng);
-        let a = *rng.pick(&live);
+        let mut a = *rng.pick(&live);
         let mut b = *rng.pick(&live);
         // bias: nodes sitting between two text nodes are where consolidation matters
         let between: Vec<usize> = live
@@ -621,6 +626,16 @@ pub fn one_history(rng: &mut Rng, sink: &mut Sink, n_ops: usize, allow_cons_off:
         if !between.is_empty() && rng.chance(1, 3) {
             b = *rng.pick(&between);
             op = *rng.pick(&["append", "prepend", "insert_after", "insert_before", "replace", "detach", "remove", "unwrap", "wrap", "new_doc_with", "new_doc_with", "new_doc_with"]);
+            // often relative to one of its own text neighbours (which the old-place merge touches)
+            if rng.chance(1, 2) {
+                let n = s.nodes[b];
+                let nb = if rng.chance(1, 2) { s.xot.next_sibling(n) } else { s.xot.previous_sibling(n) };
+                if let Some(nb) = nb {
+                    if let Some(i) = s.nodes.iter().position(|x| *x == nb) {
+                        a = i;
+                    }
+                }
+            }
         }
         let elems: Vec<usize> = live.iter().copied().filter(|&l| s.xot.is_element(s.nodes[l])).collect();
         let e = if elems.is_empty() || rng.chance(1, 8) { a } else { *rng.pick(&elems) };
